@@ -236,6 +236,18 @@ func (m *Machine) run(body func(), name string, prefix []int, opts PathOpts, isI
 			res.Uncertain = true
 		}
 	}
+	if opts.LogEvents && !isInit && (res.Outcome == "ok" || res.Outcome == "deadlock") {
+		races, nq, ncons := c.analyzeRaces()
+		res.RaceQueries = nq
+		res.HBConstraints = ncons
+		for _, r := range races {
+			res.Obligations = append(res.Obligations, Obligation{Label: "race-free", Status: "violated", Detail: r.Detail})
+			c.violation("race", "race-free", r.Detail, nil, false)
+		}
+		if len(races) == 0 {
+			res.Obligations = append(res.Obligations, Obligation{Label: "race-free", Status: "discharged"})
+		}
+	}
 	c.finish()
 	res.Queries = m.sol.queries - q0
 	res.SolverMs = float64(m.sol.solveTime-t0) / 1e6
